@@ -139,3 +139,16 @@ def replay_generation_hash_seeds(seeds=(0, 1, 2, 3, 1000), plugins=()):
     finally:
         shutil.rmtree(base, ignore_errors=True)
     return rep
+
+
+def bounded_generation(tier, seed):
+    """the replay scenarios as a standing bounded stand-in (native; never counted as proved)"""
+    seeds = (0, 1, 2, 3, 1000) if tier == "quick" else (0, 1, 2, 3, 4, 5, 6, 7, 1000, 4242)
+    r = replay_generation(seeds)
+    fails = [dict(inputs=dict(scenario=f.split(":")[0]), failed=[f], outcome=r["outcome"].get(f.split(":")[0])) for f in r["failed"]]
+    if not r["pre_ok"] and not fails:
+        fails.append(dict(inputs=dict(scenario="generation"), failed=["generation of the determinism corpus fails"], outcome=r["outcome"]))
+    return dict(function="ariadne_codegen.main:client", name="bounded.determinism", kind="bounded stand-in (end-to-end, native)",
+                domain=f"one fragment/enum/union/custom-scalar rich project: {len(seeds)} hash seeds + regeneration over the existing directory, without and "
+                       "with the bundled plugins; two generations inside one interpreter",
+                cases=4, failed=len(fails), failures=fails)
